@@ -30,6 +30,7 @@ type SolverStats struct {
 	Errors   int64
 	CacheHit int64
 	Seconds  float64
+	Restarts int64
 }
 
 // Solver is one long-lived SMT solver process speaking SMT-LIB2 over a pipe.
@@ -223,10 +224,37 @@ func (s *Solver) CheckModel(ts []*Term, vals []*Term) (SatResult, []uint64, erro
 	return s.run(live, vals)
 }
 
+// restart replaces the solver process by a fresh one (same kind and options).
+func (s *Solver) restart() error {
+	if s.cmd != nil && s.cmd.Process != nil {
+		s.in.Close()
+		s.cmd.Process.Kill()
+		s.cmd.Wait()
+	}
+	n, err := NewSolver(s.Name, s.TimeoutMs)
+	if err != nil {
+		return err
+	}
+	s.cmd, s.in, s.out = n.cmd, n.in, n.out
+	s.Stats.Restarts++
+	return nil
+}
+
 func (s *Solver) run(ts []*Term, vals []*Term) (SatResult, []uint64, error) {
 	q := BuildQuery(ts, vals)
 	t0 := time.Now()
 	lines, err := s.roundTrip(q)
+	// z3's soft-timeout timer can fire late on a loaded machine and cancel the *next*
+	// command ("push canceled"): the answer to this query is then worthless. A fresh process
+	// has no pending cancellation: restart and ask again (once).
+	for _, l := range lines {
+		if strings.HasPrefix(l, "(error") && strings.Contains(l, "canceled") {
+			if rerr := s.restart(); rerr == nil {
+				lines, err = s.roundTrip(q)
+			}
+			break
+		}
+	}
 	s.Stats.Seconds += time.Since(t0).Seconds()
 	s.Stats.Queries++
 	if err != nil {
